@@ -38,14 +38,19 @@ Oracles (all on public attributes of the returned worlds)
   terminates       every derivation runs under a `sys.settrace` line counter that only follows frames of
                    world_builder/world_builder.py; more than LINE_BUDGET = 1e5 traced lines aborts the
                    call (a private BaseException raised from the trace function) and is the violation.
-                   No clock involved.  Measured: build_from_world 31 lines, scale_from_world 56..110 lines.
+                   No clock involved.  Measured: build_from_world 31..45 lines, scale_from_world <= 99 lines.
   distinct_name    child.name != parent.name
 
-Tolerances (calibration on the unchanged tree, seeds 1-3 quick + one 40 000-case run): worst relative
-length error 2.3e-16, worst volume/gravity/mass-sum relative error 6.7e-16, worst volume-fraction change
-1.2e-16, most negative enclosed-mass step 0.  LEN_RTOL = VOL_RTOL = FRAC_ATOL = 1e-12 (>= 1000x margin);
-the smallest effect of a bookkeeping slip is a whole layer thickness (>= 3.3e-3 R) or a shell volume
-(>= 1e-7 of the world volume), i.e. >= 1e5 x the tolerance.  MASS_SLACK = 1e-13.
+Tolerances (calibration on the unchanged tree: quick seeds 1-3 and one 40 000-case thorough-tier run, seed 7, with
+C16_CALIBRATE=1): worst relative length error after scaling 2.9e-16, contiguity gap 1.0e-16 R, volume 4.9e-16,
+mass sum 2.4e-16, gravity 0, volume-fraction change 6.7e-16, most negative enclosed-mass step 0, most traced lines in one
+derivation 99.  LEN_RTOL = VOL_RTOL = FRAC_ATOL = 1e-12 (>= 1000x margin); the smallest effect of a bookkeeping
+slip is a whole layer thickness (>= 3.3e-3 R) or a shell volume (>= 1e-7 of the world volume), i.e. >= 1e5 x the
+tolerance.  MASS_SLACK = 1e-13 (of |M|).  LINE_BUDGET = 1e5 is 1000x the largest count seen.
+
+The `nested_merge` clause is a component-level proxy for "never mutates the inputs": build_from_world hands
+new_config straight to dictionary_utils.nested_merge and relies on its default make_copies=True contract; the check
+calls it with the same two dictionaries and requires both arguments to be untouched.
 
 Known findings (genuine, .py, not repaired in /repo: see known_findings.d/C16.json, out/proposed-fix-C16-*.diff)
   KF-C16-scale-needs-radius-key   scale_from_world raises KeyError('radius') for a world whose layers
